@@ -155,15 +155,10 @@ func genCarrier(t *rapid.T, allowBefore bool) ref.Carrier {
 	if allowBefore {
 		nb := rapid.SampledFrom([]int{0, 0, 0, 1, 2}).Draw(t, "nbefore")
 		for i := 0; i < nb; i++ {
-			if rapid.IntRange(0, 5).Draw(t, "before-is-pmt") == 0 {
-				// the section before is itself a complete program map section (another program on the same PID)
-				c.Before = append(c.Before, genPMT(t, 0, 3).Section())
-				continue
-			}
 			tid := rapid.SampledFrom([]byte{0x00, 0x01, 0x03, 0x40, 0x42, 0xC8, 0xFC, 0xFE}).Draw(t, "before-tid")
 			n := rapid.IntRange(0, 60).Draw(t, "before-len")
-			if rapid.IntRange(0, 7).Draw(t, "before-long") == 0 {
-				// private sections may be up to 4093 bytes behind the length field (12 bits), not only 1021
+			if tid >= 0x40 && rapid.IntRange(0, 5).Draw(t, "before-long") == 0 {
+				// private sections (table ids from 0x40) may be up to 4093 bytes behind the length field (12 bits); the ISO tables stay within 1021
 				n = rapid.SampledFrom([]int{1017, 1018, 1019, 1020, 1021, 1500, 2044, 4089}).Draw(t, "before-long-len")
 			}
 			c.Before = append(c.Before, ref.ForeignSection(tid, genBytes(t, n, n, "before-body")))
